@@ -42,6 +42,10 @@ URLS = [
     ('ws://example.com:80/explicit-default', 'example.com', 80, '/explicit-default', False),
     ('ws://example.com/%7Euser/a%20b?q=%26', 'example.com', 80, '/%7Euser/a%20b?q=%26', False),
     ('ws://10.1.2.3:9001/ip', '10.1.2.3', 9001, '/ip', False),
+    # IPv6 literals: the Host header needs the brackets (RFC 7230 5.4, RFC 3986 3.2.2)
+    ('ws://[::1]:8080/chat', '::1', 8080, '/chat', False),
+    ('ws://[2001:db8::5]/', '2001:db8::5', 80, '/', False),
+    ('wss://[2001:db8::5]:8443/s', '2001:db8::5', 8443, '/s', True),
 ]
 OPTS = [
     dict(),
@@ -153,6 +157,7 @@ def run_case(case, acc):
 # ------------------------------------------------------------------ request side
 def run_req(case, acc):
     url, host, port, resource, secure = URLS[case['url']]
+    hosta = '[%s]' % host if ':' in host else host          # as it appears in an authority
     opt = OPTS[case['opt']]
     wskw = {k: v for k, v in opt.items() if k in ('protocols', 'compress', 'agent')}
     hdrs = [(bytes(a), bytes(b)) for a, b in opt.get('headers', [])]
@@ -196,8 +201,8 @@ def run_req(case, acc):
             elif r['target'] != resource.encode():
                 key = 'request-target-differs-from-url-resource'
                 detail['target'] = r['target']
-            elif one(b'host') not in (('%s:%d' % (host, port)).encode(), host.encode() if port in (80, 443) else None):
-                key = 'host-header-wrong'
+            elif one(b'host') not in (('%s:%d' % (hosta, port)).encode(), hosta.encode() if port in (80, 443) else None):
+                key = 'host-header-wrong' + (':ipv6-literal' if ':' in host else '')
             elif (one(b'upgrade') or b'').lower() != b'websocket':
                 key = 'upgrade-header-missing'
             elif b'upgrade' not in [t.strip().lower() for t in (one(b'connection') or b'').split(b',')]:
